@@ -23,3 +23,23 @@ package binary
 //gvc:  ensures last: now(buf)[len(now(buf)) - 1] & 0x80 == 0
 //gvc:  ensures conts: forall(k, 0, 9, k + 1 < len(now(buf)) ==> now(buf)[k] & 0x80 != 0)
 //gvc:end
+
+// ReadUint32 / ReadUint64: the next 4 / 8 bytes of the stream as a big-endian
+// word (trusted: thin wrappers over encoding/binary.Read, which is reflective).
+//gvc:func ReadUint32
+//gvc:  trusted
+//gvc:  params r
+//gvc:  results v err
+//gvc:  modifies r.#pos
+//gvc:  ensures word: err == nil ==> v == spec_be32(r.#data, old(r.#pos)) && r.#pos == old(r.#pos) + 4 && r.#pos <= r.#n
+//gvc:  ensures failed: err != nil ==> v == 0
+//gvc:end
+
+//gvc:func ReadUint64
+//gvc:  trusted
+//gvc:  params r
+//gvc:  results v err
+//gvc:  modifies r.#pos
+//gvc:  ensures word: err == nil ==> v == spec_be64(r.#data, old(r.#pos)) && r.#pos == old(r.#pos) + 8 && r.#pos <= r.#n
+//gvc:  ensures failed: err != nil ==> v == 0
+//gvc:end
